@@ -405,8 +405,34 @@ func (s *Sim) DeliverAll() {
 			continue
 		}
 		guard++
-		if guard > 20000 {
+		limit := 20000
+		if s.N > 16 {
+			limit = 100 * s.N * s.N // every participant may complain and every complaint is answered: O(n²) deliveries per round
+		}
+		if guard > limit {
 			s.G.Fatalf("simulator: round %d does not quiesce (message storm)", s.Round)
+		}
+		if len(s.pool) > 2000 {
+			// large groups: computing the set of enabled deliveries is quadratic in the pool; draw any pending delivery and, if
+			// it is a broadcast, deliver the earliest pending broadcast of that sender to that receiver instead (which is enabled)
+			k := s.G.Int("deliverLarge", 0, len(s.pool)-1)
+			if k != 0 {
+				s.reorder = true
+			}
+			d := s.pool[k]
+			if d.broadcast {
+				for j, e := range s.pool {
+					if e.broadcast && e.from == d.from && e.to == d.to && e.bseq < s.pool[k].bseq {
+						k = j
+					}
+				}
+			}
+			d = s.pool[k]
+			s.pool[k] = s.pool[len(s.pool)-1]
+			s.pool = s.pool[:len(s.pool)-1]
+			s.deliver(d)
+			s.firePlanned(false)
+			continue
 		}
 		// enabled deliveries: for broadcasts, every earlier broadcast of the same sender has reached this receiver
 		var enabled []int
